@@ -211,6 +211,15 @@ def bounded(tier, seed, procs):
         if r[0] != "val":
             b_sub.fail(Failure("coefficients-subscripts", f"targets={tn} expr={e!r} exc={r[1].__name__}", dict(kind="coeff-sub", expr=trees.src(e), targets=tn),
                                expected="coefficients", actual=outcome.describe(r), functions=["CoefficientCollector.map_algebraic_leaf"]))
+    # an attribute look-up on a target: x.a is not an affine function of x either
+    lookup_cases = [(p.Sum((p.Product((p.Lookup(x, "a"), 2)), 3)), ["x"]), (p.Sum((p.Lookup(x, "re"), x)), ["x"]), (p.Lookup(p.Sum((x, 1)), "im"), ["x"])]
+    for e, tn in lookup_cases:
+        r = outcome.run(lambda: CoefficientCollector(tn)(e))
+        b_sub.case((repr(e), repr(tn), "lookup"), sample=dict(expr=repr(e), targets=tn, affine=False))
+        if r[0] == "val":
+            b_sub.fail(Failure("coefficients-subscripts", f"what=target-below-lookup-accepted cause=lookup-leaf-judged-by-attribute-name targets={tn} expr={e!r}",
+                               dict(kind="coeff-sub-lk", expr=trees.src(e), targets=tn), expected="raises (not affine in the targets)", actual=outcome.describe(r)[:200],
+                               functions=["CoefficientCollector.map_algebraic_leaf"]))
     for e, tn in nonaffine_cases:
         r = outcome.run(lambda: CoefficientCollector(tn)(e))
         b_sub.case((repr(e), repr(tn), "nonaffine"), sample=dict(expr=repr(e), targets=tn, affine=False))
